@@ -350,6 +350,58 @@ def guard_present(f, node, guard):
     return False
 
 
+GENERIC_HELPER_PREFIXES = ("utils::", "math::")
+USER_DATA_TYPES = re.compile(r"\bstr\b|String|InputSpan|Spanned|Primitive|PreExp|\bExp\b|Pair<|Pairs<|Iterable|Graph|Tuple|CompilationError|TransformError|char\b")
+
+
+def handles_user_data(F, f, p):
+    """a free helper of the generic modules (utils, math) is in the layer that handles user text / user data directly only
+    when its signature says so (a string, a span, a primitive, an expression, an error to render); a container helper
+    such as `remove_many<T>(&mut Vec<T>, &[usize])` works for the layers that call it"""
+    if not p.startswith(GENERIC_HELPER_PREFIXES):
+        return True
+    tys = [F.types[t] for t in list(f.get("inputs", [])) + ([f["output"]] if isinstance(f.get("output"), int) else []) if isinstance(t, int) and 0 <= t < len(F.types)]
+    if not tys:
+        return True
+    return any(USER_DATA_TYPES.search(t or "") for t in tys)
+
+
+def erase_idents(text):
+    """the construct with field / local names erased: identifiers that are not called (no `(` after them), not `self`,
+    not a path segment before `::` and not a number are replaced by `_`"""
+    def rep(m):
+        w = m.group(0)
+        end = m.end()
+        rest = text[end:end + 2]
+        if w in ("self", "Self", "true", "false", "as", "mut", "usize", "f64", "i64", "u64", "i32", "u32") or rest.startswith("(") or rest.startswith("::") or text[max(0, m.start() - 2):m.start()] == "::":
+            return w
+        return "_"
+    return re.sub(r"[A-Za-z_][A-Za-z0-9_]*", rep, text)
+
+
+def guard_present_erased(f, node, guard):
+    """guard_present with the identifiers of the guard text and of the code erased (a renamed field in both)"""
+    if guard_present(f, node, guard):
+        return True
+    kind = ""
+    g = guard
+    for pre in ("before:", "arm:"):
+        if g.startswith(pre):
+            kind, g = pre, g[len(pre):]
+    ge = erase_idents(g).replace(" ", "")
+    body = f["body"]
+    if kind == "before:":
+        return any(i.get("k") == "If" and i.get("l", 0) <= node.get("l", 0) and not contains(i, node) and diverges(i["then"]) and ge in erase_idents(sexp(strip(i["cond"]))).replace(" ", "") for i in walk(body))
+    if kind == "arm:":
+        return guard_present(f, node, guard)
+    for i in walk(body):
+        if i.get("k") == "If" and contains(i["then"], node) and ge in erase_idents(sexp(strip(i["cond"]))).replace(" ", ""):
+            return True
+        if i.get("k") == "While" and contains(i["body"], node) and ge in erase_idents(sexp(strip(i["cond"]))).replace(" ", ""):
+            return True
+    return False
+
+
 HIGH_RISK_PREFIXES = ("parser::", "primitives::", "runtime_builtin::", "type_checker::", "utils::", "math::", "traits::")
 
 
@@ -397,6 +449,7 @@ def check(F, R, tier, dump=None):
         for e_ in ents_:
             by_text.setdefault((kind_, text_), []).append(dict(e_, fn=fn_))
     used = {}
+    renamed_used = {}
     todo = []
     n_sites = n_guard = n_table = 0
     for p in fns:
@@ -443,7 +496,19 @@ def check(F, R, tier, dump=None):
                 # the same construct reviewed under another function (code moved into / out of a helper, a renamed
                 # function), or more often in this function than reviewed (a duplicated branch): the review of the
                 # construct itself carries over when it does not lean on a guard of its old surroundings
-                moved = [e for e in by_text.get((kind, text_n), []) if not e.get("requires")]
+                # an entry that leans on a guard carries over when that guard is found around the new site as well
+                moved = [e for e in by_text.get((kind, text_n), []) if all(guard_present(f, node, g_) for g_ in e.get("requires", []))]
+                if not moved:
+                    # the same function with a private field / local renamed: the construct with its identifiers erased
+                    # (method names and `self` kept) is one that was reviewed in this very function, guards included
+                    er = erase_idents(text_n)
+                    for (fn_, kind_, t_), ents_ in table.items():
+                        if fn_ == p and kind_ == kind and erase_idents(t_) == er and renamed_used.get((fn_, kind_, t_), 0) < sum(e_.get("count", 1) for e_ in ents_):
+                            if all(guard_present_erased(f, node, g_) for e_ in ents_ for g_ in e_.get("requires", [])):
+                                renamed_used[(fn_, kind_, t_)] = renamed_used.get((fn_, kind_, t_), 0) + 1
+                                used[(fn_, kind_, t_)] = True
+                                moved = [dict(ents_[0], fn=fn_ + " (identifiers renamed)")]
+                                break
                 if moved:
                     n_table += 1
                     R.ob("C-TABLE", "%s|%s|%s#moved%d" % (p, kind, text_n, counts[key]), True, F.loc(f, node), "reviewed (in %s): %s" % (moved[0]["fn"].rsplit("::", 1)[-1], moved[0]["reason"]))
@@ -466,7 +531,7 @@ def check(F, R, tier, dump=None):
                 # rendering) or when it is a panic!/todo!/byte-offset string slice anywhere; in the layers that work on
                 # compiled models (transformers, solvers, builder, pipes) indexing and unwrapping rest on structural
                 # invariants of those models that this rule cannot see, so the site stays undecided there
-                risky_place = p.startswith(HIGH_RISK_PREFIXES) or any(("<" + x) in p or (" " + x) in p for x in HIGH_RISK_PREFIXES)
+                risky_place = (p.startswith(HIGH_RISK_PREFIXES) or any(("<" + x) in p or (" " + x) in p for x in HIGH_RISK_PREFIXES)) and handles_user_data(F, f, p)
                 risky_kind = kind in ("panic", "strslice") or (kind == "arith" and sub in ("neg",)) or (kind == "index" and ("ops::Range" in text_n and is_str_ty(F, node)))
                 R.ob("C-PANIC", "%s|%s|%s" % (p, kind, text_n), False, F.loc(f, node),
                      "reachable construct that can panic (%s %s) `%s` is neither discharged by a recognised guard nor listed in the reviewed table" % (kind, sub, text_n), undecided=not (risky_place or risky_kind))
